@@ -323,18 +323,47 @@ package kapacitor
 
 // ---------------------------------------------------------------- where.go (C06)
 
+// Assumed of every Expression implementation (proved for *expression in tick/stateful): the copy
+// is another object than the receiver.
 //@ func =(github.com/influxdata/kapacitor/tick/stateful.Expression).CopyReset
 //@   trusted
 //@   modifies nothing
-//@   ensures result != nil
+//@   ensures result != nil && result != recv
 
-// A new group gets a group state object that did not exist before, with its own copy of the
-// expression.
+// A new group gets a group state object that did not exist before, holding the copy of the
+// node's expression that CopyReset returned -- never the node's own (shared) expression.
 //@ func (*WhereNode).newGroup
 //@   props C06
 //@   requires n != nil && n.expression != nil
 //@   modifies nothing
 //@   ensures result != nil && fresh(result) && result.n == n && result.expr != nil
+//@   ensures called(CopyReset) && result.expr == callresult(CopyReset, 0) && result.expr != n.expression
+
+// Assumed of every tracker factory stored in the node (stateDuration/stateCount constructors
+// store closures that only allocate the tracker).
+//@ func field:StateTrackingNode.newTracker
+//@   trusted
+//@   modifies nothing
+
+//@ func (*StateTrackingNode).newGroup
+//@   props C06
+//@   requires n != nil && n.expr != nil
+//@   modifies nothing
+//@   ensures result != nil && fresh(result) && result.n == n
+//@   ensures called(CopyReset) && result.Expression == callresult(CopyReset, 0) && result.Expression != n.expr
+
+// eval: one copy per expression, in the node's order, in a slice that did not exist before.
+//@ func (*EvalNode).newGroup
+//@   props C06
+//@   requires n != nil
+//@   requires forall k int :: 0 <= k && k < len(n.expressions) ==> n.expressions[k] != nil
+//@   modifies nothing
+//@   ensures result != nil && fresh(result) && result.n == n && len(result.expressions) == len(n.expressions)
+//@   ensures forall k int :: 0 <= k && k < len(n.expressions) ==> result.expressions[k] != nil && result.expressions[k] != n.expressions[k]
+//@   loop 1
+//@     modifies elems(expressions)
+//@     invariant 0 <= _i && _i <= len(n.expressions) && len(expressions) == len(n.expressions) && samearray(expressions, before(expressions)) && newinloop(expressions) == false
+//@     invariant forall k int :: 0 <= k && k < _i ==> expressions[k] != nil && expressions[k] != n.expressions[k]
 
 // ---------------------------------------------------------------- join.go (C12)
 
@@ -404,36 +433,36 @@ package kapacitor
 
 // shift: the message's time plus the configured shift, nothing else.
 //@ func (*ShiftNode).doShift
-//@   props C10
+//@   props C10 C05
 //@   requires n != nil && t != nil
 //@   modifies gfi(t, mutated, bool)
 //@   ensures called(SetTime) && callarg(SetTime, 0) == t.Time() + time.Time(n.shift)
 
 // The received point is not touched: the shifted message is a copy.
 //@ func (*ShiftNode).Point
-//@   props C10
+//@   props C10 C05
 //@   requires n != nil && p != nil && !gfi(p, mutated, bool)
 //@   ensures !gfi(p, mutated, bool) && result0 != nil && result1 == nil
 //@   ensures callarg(doShift, 0) == result0
 //@ func (*ShiftNode).BatchPoint
-//@   props C10
+//@   props C10 C05
 //@   requires n != nil && bp != nil && !gfi(bp, mutated, bool)
 //@   ensures !gfi(bp, mutated, bool) && result0 != nil && result1 == nil
 //@ func (*ShiftNode).BeginBatch
-//@   props C10
+//@   props C10 C05
 //@   requires n != nil && begin != nil && !gfi(begin, mutated, bool)
 //@   ensures !gfi(begin, mutated, bool) && result0 != nil && result1 == nil
 
 // sample: keep every N-th point by count, or the points whose time is a multiple of the duration.
 //@ func (*SampleNode).shouldKeep
-//@   props C10
+//@   props C10 C05
 //@   requires n != nil && n.s != nil && (n.duration == 0 ==> n.s.N != 0)
 //@   pure
 //@   ensures n.duration != 0 ==> result == (t == t - emod(t, time.Time(n.duration)) || n.duration < 0)
 //@   ensures n.duration == 0 ==> result == (count % n.s.N == 0)
 
 //@ func (*sampleGroup).Point
-//@   props C10
+//@   props C10 C05
 //@   requires g != nil && g.n != nil && g.n.s != nil && (g.n.duration == 0 ==> g.n.s.N != 0) && p != nil
 //@   modifies g.count
 //@   ensures g.count == old(g.count) + 1 && result1 == nil
@@ -441,7 +470,7 @@ package kapacitor
 //@   ensures !g.n.shouldKeep(old(g.count), p.Time()) ==> result0 == nil
 
 //@ func numToFloat
-//@   props C10
+//@   props C10 C05
 //@   pure
 //@   ensures typeis(num, int64) ==> result1 && result0 == float64(as(num, int64))
 //@   ensures typeis(num, float64) ==> result1 && result0 == as(num, float64)
@@ -451,7 +480,7 @@ package kapacitor
 // both are numeric, time advanced and (for nonNegative) the difference is not negative.
 // Floating point operations are uninterpreted: the contract pins the shape of the formula.
 //@ func (*DerivativeNode).derivative
-//@   props C10
+//@   props C10 C05
 //@   requires n != nil && n.d != nil && n.diag != nil
 //@   modifies nothing
 //@   ensures !second(numToFloat(curr[n.d.Field])) ==> !result1 && !result2
@@ -466,25 +495,25 @@ package kapacitor
 
 // stateCount: -1 and a restart when not in state, else one more than before.
 //@ func (*stateCountTracker).track
-//@   props C10
+//@   props C10 C05
 //@   modifies sct.count
 //@   ensures !inState ==> sct.count == 0 && typeis(result, int64) && as(result, int64) == -1
 //@   ensures inState ==> sct.count == old(sct.count) + 1 && typeis(result, int64) && as(result, int64) == sct.count
 //@ func (*stateCountTracker).reset
-//@   props C10
+//@   props C10 C05
 //@   modifies sct.count
 //@   ensures sct.count == 0
 
 // stateDuration: -1 and a restart when not in state, else (t - start of the state) / unit.
 //@ func (*stateDurationTracker).track
-//@   props C10
+//@   props C10 C05
 //@   requires sdt.sd != nil
 //@   modifies sdt.startTime
 //@   ensures !inState ==> sdt.startTime == time.Time(0) && typeis(result, float64) && as(result, float64) == float64(-1)
 //@   ensures inState ==> sdt.startTime == ite(old(sdt.startTime) == time.Time(0), t, old(sdt.startTime))
 //@       && typeis(result, float64) && as(result, float64) == float64(t - sdt.startTime) / float64(sdt.sd.Unit)
 //@ func (*stateDurationTracker).reset
-//@   props C10
+//@   props C10 C05
 //@   modifies sdt.startTime
 //@   ensures sdt.startTime == time.Time(0)
 
@@ -493,11 +522,11 @@ package kapacitor
 //@   trusted
 //@   modifies gfi(p, mutated, bool)
 //@ func (*stateTrackingGroup).Point
-//@   props C10
+//@   props C10 C05
 //@   requires g != nil && g.n != nil && p != nil && !gfi(p, mutated, bool)
 //@   ensures !gfi(p, mutated, bool)
 //@ func (*stateTrackingGroup).BatchPoint
-//@   props C10
+//@   props C10 C05
 //@   requires g != nil && g.n != nil && bp != nil && !gfi(bp, mutated, bool)
 //@   ensures !gfi(bp, mutated, bool)
 
